@@ -621,8 +621,12 @@ def _spine_positions(owner: ast.AST, field: str):
         elif isinstance(cur, ast.Call):
             if isinstance(cur.func, ast.Attribute):
                 owner, field, idx = cur.func, "value", None
-            elif isinstance(cur.func, ast.Name) and cur.args and not isinstance(cur.args[0], ast.Starred):
-                owner, field, idx = cur, "args", 0
+            elif isinstance(cur.func, ast.Name):
+                yield cur, "func", None
+                if cur.args and not isinstance(cur.args[0], ast.Starred):
+                    owner, field, idx = cur, "args", 0
+                else:
+                    return
             else:
                 return
         elif isinstance(cur, (ast.Tuple, ast.List)) and cur.elts:
@@ -681,14 +685,15 @@ def simplify_locals(fi: FunctionInfo, body: list[ast.stmt], log: list[str]) -> b
                     continue
                 name = tgt.id
                 loads, stores = _name_uses(body, name)
-                if len(stores) != 1:
+                if len(stores) != 1 and len(stores) != len(loads):
                     continue
+                multi = len(stores) != 1
                 # closures reading the name keep it alive
                 if any(isinstance(n, (ast.FunctionDef, ast.AsyncFunctionDef, ast.Lambda)) and any(isinstance(x, ast.Name) and x.id == name for x in ast.walk(n)) for st in body for n in ast.walk(st)):
                     continue
                 value = s1.value
                 # (a) bound-method alias
-                if isinstance(value, ast.Attribute) and loads:
+                if not multi and isinstance(value, ast.Attribute) and loads:
                     call_funcs = [c.func for st in body for c in ast.walk(st) if isinstance(c, ast.Call)]
                     if all(any(ld is f for f in call_funcs) for ld in loads):
                         for st in body:
@@ -700,14 +705,17 @@ def simplify_locals(fi: FunctionInfo, body: list[ast.stmt], log: list[str]) -> b
                         changed = again = True
                         break
                 # (b) forward substitution into the next statement
-                if len(loads) == 1 and i + 1 < len(block) and not any(isinstance(x, (ast.Await, ast.Yield, ast.YieldFrom)) for x in ast.walk(value)):
+                if (len(loads) == 1 or multi) and i + 1 < len(block) and not any(isinstance(x, (ast.Await, ast.Yield, ast.YieldFrom)) for x in ast.walk(value)):
                     s2 = block[i + 1]
                     slot = _left_spine_slot(s2)
                     if slot is None:
                         continue
+                    in_s2 = [n for n in ast.walk(s2) if isinstance(n, ast.Name) and n.id == name and isinstance(n.ctx, ast.Load)]
+                    if len(in_s2) != 1:
+                        continue
                     for owner, field, idx in _spine_positions(*slot):
-                        if _get_slot(owner, field, idx) is loads[0]:
-                            _set_slot(owner, field, idx, ast.copy_location(clone(value), loads[0]))
+                        if _get_slot(owner, field, idx) is in_s2[0]:
+                            _set_slot(owner, field, idx, ast.copy_location(clone(value), in_s2[0]))
                             del block[i]
                             log.append(f"{fi.short}: forward-substituted `{name}`")
                             changed = again = True
